@@ -53,8 +53,10 @@ Full statement / proved / missing
   touches another goroutine's table), `C14s_step_frame` / `C14s_other_goroutines_contexts` / `C14s_waiting_child_view` /
   `C14s_fork_view` (fork isolation of context objects per step: only contexts installed for the stepping goroutine are
   written; a waiting child keeps the view of the Fork call), `C14s_released_goroutine`, `C14s_released`.     **proved**
-  Remaining for the small-step model: loader ENTRIES (the big-step theorems `C14_fork_isolated`, `C14_parent_loads_unaffected`
-  cover nested interleavings only), and a refinement theorem big-step ⊆ small-step (both are tied to the code by the
+  `C14s_defs_step`: a micro-step writes only the defining loader of the stepping goroutine's current body context.  **proved**
+  Remaining for the small-step model: the loader-chain exclusivity invariant `LInv` over `Reachable` (needed to conclude from
+  `C14s_defs_step` that a parent's `Load` answers do not depend on its children; proved for the big-step model:
+  `C14_parent_loads_unaffected`), and a refinement theorem big-step ⊆ small-step (both are tied to the code by the
   correspondence run instead: `progs` = big-step, `progi` = small-step under leaf-level interleaving).
   Atomicity of a micro-step: one call into pcore up to where it calls back the actor, or one deferred function.
 * SECOND TIE — `C14_facts_now` + `C14_facts_*`: the shape table regenerated from px/context.go, internal/context.go,
@@ -416,6 +418,15 @@ theorem C14s_fork_view {p : Prog} {c : Cfg} (h : Reachable p c) (hn : c ≠ Cfg.
   · have sp := (stepG_spec hh.winv hh.nopend (hh.gok g hg)).spawned n hsp
     rw [hk] at sp
     exact ⟨sp.1, sp.2.2.1, sp.2.2.2.1, (sp.2.1.unst sp.2.2.1).1, sp.2.2.2.2.1, sp.2.2.2.2.2⟩
+
+/-- loader entries, per step (no invariant needed): a micro-step writes an existing loader's entry table only if it is the
+    defining loader of the context of the stepping goroutine's next body frame — definitions go nowhere else -/
+theorem C14s_defs_step (c : Cfg) (i : Nat) (g : GS) (hi : c.gs[i]? = some g) (l : Nat) (hl : l < c.w.nextLoader)
+    (hne : ∀ q cx k, g.k = .run q cx :: k → some l ≠ (c.w.ctxs cx).loader.head?) :
+    (c.step i).w.defs l = c.w.defs l := by
+  have e : (c.step i).w = (stepG g c.w).w := by simp [Cfg.step, hi]
+  rw [e]
+  exact stepG_defs g c.w l hl hne
 
 /-- released: a goroutine that has ended has no goroutine-local table — at every point of every interleaving -/
 theorem C14s_released_goroutine {p : Prog} {c : Cfg} (h : Reachable p c) (g : GS) (hg : g ∈ c.gs) (hd : g.done = true) :
